@@ -17,7 +17,7 @@ import (
 )
 
 const (
-	aMaxIDs = 8
+	aMaxIDs = 320
 )
 
 type aOpKind int
@@ -222,17 +222,19 @@ type agentEngine struct {
 	reentPct int
 	mix      [aNumKinds]int
 
-	ops     []*aOpRec
-	stack   map[int][]*aOpRec // task id -> op stack
-	model   aState            // sequential model (single-task runs only)
-	seq     bool
-	starts  [aMaxIDs]int // successful Start count per id
-	terms   [aMaxIDs]int // terminal events per id
-	viol    *Violation
-	stats   map[string]int
-	states  map[aState]bool
-	closing map[int]bool // tasks currently inside a Close-emitted handler
-	desc    []string
+	ops      []*aOpRec
+	stack    map[int][]*aOpRec // task id -> op stack
+	model    aState            // sequential model (single-task runs only)
+	seq      bool
+	bulk     bool
+	nextBulk int
+	starts   [aMaxIDs]int // successful Start count per id
+	terms    [aMaxIDs]int // terminal events per id
+	viol     *Violation
+	stats    map[string]int
+	states   map[aState]bool
+	closing  map[int]bool // tasks currently inside a Close-emitted handler
+	desc     []string
 }
 
 func (e *agentEngine) Stats() map[string]int { return e.stats }
@@ -242,7 +244,7 @@ func (e *agentEngine) NonTrivial() bool { return e.r.Switches >= 2 || len(e.ops)
 func (e *agentEngine) HistoryHash() uint64 { return hashName(strings.Join(e.desc, " ")) }
 
 func (e *agentEngine) Describe() any {
-	return map[string]any{"tasks": e.nTasks, "ids": e.nIDs, "times": e.nT, "reent_pct": e.reentPct, "ops": e.desc}
+	return map[string]any{"tasks": e.nTasks, "ids": e.nIDs, "times": e.nT, "reent_pct": e.reentPct, "bulk": e.bulk, "ops": capList(e.desc, 80)}
 }
 
 func (e *agentEngine) Setup(r *Run) {
@@ -268,7 +270,12 @@ func (e *agentEngine) Setup(r *Run) {
 	e.seq = e.nTasks == 1
 	e.nIDs = 1 + r.Choose(4, "nids")
 	if thorough && r.Pct(30, "moreids") {
-		e.nIDs = 4 + r.Choose(aMaxIDs-3, "nids2")
+		e.nIDs = 4 + r.Choose(5, "nids2")
+	}
+	if e.seq && r.Pct(12, "bulk") {
+		// many transactions registered at once (beyond any internal batch size)
+		e.bulk = true
+		e.nIDs = 90 + r.Choose(aMaxIDs-90, "nids-bulk")
 	}
 	e.nT = 2 + r.Choose(5, "ntimes")
 	e.nH = 1 + r.Choose(3, "nhandlers")
@@ -286,6 +293,11 @@ func (e *agentEngine) Setup(r *Run) {
 	e.reentPct = []int{0, 0, 15, 40}[r.Choose(4, "reent")]
 	for k := range e.mix {
 		e.mix[k] = 1 + r.Choose(6, "mix")
+	}
+	if e.bulk {
+		e.reentPct = 0
+		e.opsPer = e.nIDs + 20 + r.Choose(60, "nops-bulk")
+		e.mix = [aNumKinds]int{aStart: 30, aStop: 1, aStopErr: 1, aProcess: 1, aCollect: 2, aSetHandler: 1, aClose: 0}
 	}
 	// Close is rare so that runs do real work before it
 	e.mix[aClose] = r.Choose(2, "closemix")
@@ -305,7 +317,9 @@ func (e *agentEngine) Setup(r *Run) {
 		var id [stun.TransactionIDSize]byte
 		// ids differ in a single bit of the last byte / first byte alternately
 		id[0] = 0xA0
-		id[11] = byte(1 << uint(i%8))
+		id[5] = byte(i >> 11)
+		id[6] = byte(i >> 3)
+		id[11] = byte(1 << uint(i%8)) // neighbours differ in a single bit
 		e.ids = append(e.ids, id)
 	}
 	e.errs = []error{errors.New("custom-0"), errors.New("custom-1"), errors.New("custom-2")}
@@ -429,6 +443,10 @@ func (e *agentEngine) drawOp(nested bool) aInput {
 	switch in.Kind {
 	case aStart:
 		in.ID = r.Choose(e.nIDs, "id")
+		if e.bulk {
+			in.ID = e.nextBulk % e.nIDs
+			e.nextBulk++
+		}
 		in.T = r.Choose(e.nT, "deadline")
 	case aStop, aProcess:
 		in.ID = r.Choose(e.nIDs, "id")
@@ -564,7 +582,7 @@ func (e *agentEngine) Finish() *Violation {
 		e.stats["porcupine_skipped_long"]++
 		return nil
 	}
-	res := porcupine.CheckOperationsTimeout(aModel, pops, 30*time.Second)
+	res := porcupine.CheckOperationsTimeout(aModel, pops, 5*time.Second)
 	switch res {
 	case porcupine.Ok:
 		e.stats["porcupine_ok"]++
